@@ -1024,11 +1024,21 @@ func runMultiHistory(c *hx.Ctx, r *hx.Rng, idx int, workers int, thorough bool) 
 		{"level 0", func() error { return sh.LevelCompact(0) }},
 		{"selfmerge", func() error { return sh.MergeOutOfOrder(true, false) }},
 	}
-	if r.Chance(50) {
-		ops[0], ops[1] = ops[1], ops[0]
-	}
-	if r.Chance(50) {
-		ops = append(ops, opT{"merge", func() error { return sh.MergeOutOfOrder(false, true) }})
+	switch {
+	case r.Chance(30):
+		// merges into the ordered files first (one goroutine per measurement, each with merged
+		// out-of-order files to delete after its log is gone), then what is left to compact
+		ops = []opT{
+			{"merge", func() error { return sh.MergeOutOfOrder(false, true) }},
+			{"level 0", func() error { return sh.LevelCompact(0) }},
+		}
+	default:
+		if r.Chance(50) {
+			ops[0], ops[1] = ops[1], ops[0]
+		}
+		if r.Chance(50) {
+			ops = append(ops, opT{"merge", func() error { return sh.MergeOutOfOrder(false, true) }})
+		}
 	}
 	var opNames []string
 	var release func()
